@@ -1068,7 +1068,7 @@ def run_shard(rep, tier, seed, shard, nshards):
 
 def _run_main(rep, tier, seed, shard, nshards):
     dl = Deadline(budget(tier, 45, 600))
-    ncases = budget(tier, 2000, 40000)
+    ncases = budget(tier, 5000, 40000)
     for k in range(ncases):
         if dl.expired():
             break
